@@ -13,7 +13,9 @@ ASSUMPTIONS = [
     "fake sgio/iscsi model the bindings' Python boundary",
 ]
 
-BYTESLIKE = (bytes, bytearray, memoryview)
+from vmon.harness import Huge  # noqa: E402
+
+BYTESLIKE = (bytes, bytearray, memoryview, Huge)
 
 
 def shards(tier, seed):
@@ -92,7 +94,7 @@ def check_buffers(ctx, c, setname, path, a, cdb, datain, dataout):
         ctx.fail("C03:%s.datain_length" % c.name, "len(datain)=%d, CDB announces %d" % (len(datain), inn), wit)
     if len(dataout) != out:
         ctx.fail("C03:%s.dataout_length" % c.name, "len(dataout)=%d, CDB announces %d" % (len(dataout), out), wit)
-    if ident is not None and dataout is not ident and bytes(dataout) != bytes(ident):
+    if ident is not None and dataout is not ident and (isinstance(dataout, Huge) or bytes(dataout) != bytes(ident)):
         ctx.fail("C03:%s.dataout_not_callers_data" % c.name, "dataout differs from the caller's data", wit)
     t = inn[1] if isinstance(inn, tuple) else inn
     return (t + out) > 0
@@ -147,6 +149,10 @@ def cases(c, rng, shard):
                     yield harness.fill_derived(c, a, rng)
     for _ in range(n):
         yield harness.random_args(c, rng)
+    if c.xfer in ("alloc", "read", "write", "allocarg"):
+        for a in harness.huge_cases(c, rng):
+            a["_huge"] = True
+            yield a
     if not shard["small"] and c.xfer in ("alloc", "read", "write"):
         for _ in range(2):
             yield harness.random_args(c, rng, cap=S.BIGCAP)
@@ -183,6 +189,20 @@ def run(shard, ctx):
     for setname in c.sets:
         for a in cases(c, rng, shard):
             i += 1
+            if a.pop("_huge", False):
+                with harness.huge_buffers():
+                    one(ctx, c, setname, a, transports, True, rng)
+                ctx.count("huge_buffer_cases")
+                continue
+            one(ctx, c, setname, a, transports, not (shard["small"] and i % 3), rng)
+
+
+def one(ctx, c, setname, a, transports, do_transports, rng):
+    from vmon import harness
+    from vmon.spec import dataout as DO
+
+    if True:
+        if True:
             full = dict(harness.defaults(c))
             full.update(a)
             rep = (c.name, setname, harness.args_repr(a) if not c.custom else repr(a))
@@ -192,14 +212,14 @@ def run(shard, ctx):
                 ctx.case(("ctor",) + rep, False)
                 ctx.fail("C03:%s.constructor_raises.%s" % (c.name, type(e).__name__), "constructor raised %s: %s" % (type(e).__name__, e),
                          {"cmd": c.name, "table": setname, "args": a}, exc=e)
-                continue
+                return
             nt = check_buffers(ctx, c, setname, "ctor", full, cmd.cdb, cmd.datain, cmd.dataout)
             ctx.case(("ctor",) + rep, nt, sample={"cmd": c.name, "args": a, "cdb": bytes(cmd.cdb), "len_in": _len(cmd.datain),
                                                   "len_out": _len(cmd.dataout)} if ctx.want_sample() else None)
             ctx.count("objects_checked")
             ctx.add("xfer_kinds", c.xfer)
-            if not c.facade or (shard["small"] and i % 3):
-                continue
+            if not c.facade or not do_transports:
+                return
             for tname, mk in transports:
                 dev, log = mk(setname)
                 s = harness.make_facade(dev)
@@ -213,7 +233,7 @@ def run(shard, ctx):
                     ctx.fail("C03:%s.transport_raises.%s" % (c.name, tname),
                              "%s over %s raised %s before reaching the binding: %s" % (c.facade, tname, type(err).__name__, err),
                              {"cmd": c.name, "table": setname, "args": a, "transport": tname}, exc=err)
-                    continue
+                    return
                 ev = log[0]
                 nt = check_buffers(ctx, c, setname, tname, full, ev["cdb"], ev["in"], ev["out"])
                 ctx.case((tname,) + rep, nt)
